@@ -100,14 +100,14 @@ PROPS.update({
 
 
 PROPS.update({
-    "C13": {"modules": ["Carapace.Props.C13"], "ops": [("exportrt", {"quick": 4000, "thorough": 300000}), ("import", {"quick": 4000, "thorough": 300000})],
+    "C13": {"modules": ["Carapace.Props.C13", "Carapace.Props.C13Doc"], "ops": [("exportrt", {"quick": 4000, "thorough": 300000}), ("import", {"quick": 4000, "thorough": 300000})],
             "rule": "exportrt: random completions (0-8, rarely 300 candidates) with quotes, backslashes, C0 controls, DEL, <>&, U+2028/2029, U+FFFD, non-BMP text in every field, equal values with different displays, tags/styles/uids, 0-2 messages, no-space sets, usage, exported through InvokedAction.export or through value(\"export\") and read back with ActionImport; import: such documents mutated (truncated at a random byte, trailing data, wrong types, extra / duplicate / case-variant fields, nulls, other versions, non-JSON); non-trivial = every case; distinct = distinct input digest",
-            "assumptions": ["encoding/json is a dependency: its string encoding is modelled (Model/Export.lean) and compared byte for byte with json.Marshal on every case; its decoder is not modelled (Lean's own JSON parser judges validity of the mutated documents)",
+            "assumptions": ["encoding/json is a dependency: its string encoding is modelled (Model/Export.lean) and compared byte for byte with json.Marshal on every case; its decoder is modelled for exactly the shape the encoder writes (Model/ExportDecode.lean: struct field order, omitempty fields absent when empty, no white space) and compared with the real ActionImport on the real bytes of every generated document; what encoding/json accepts beyond that shape (other field orders, white space, unknown fields) is not modelled (Lean's own JSON parser judges validity of the mutated documents of op import)",
                             "ActionExecute and the child-process path (`<program> _carapace export`) reuse the same two functions and are not exercised separately in the quick tier",
                             "invalid UTF-8 is lossy by construction of encoding/json and outside the claim (valid Unicode text)"],
             "claimed": True, "engine": "alg",
-            "level_text": ("`C13_string_roundtrip`: for every Unicode string s, decoding the JSON string that the model of Go's `appendString` writes for s yields s again (transducer induction; the per-character obligation is decided over all of ASCII and U+2028/2029 and lifted to every other character), plus `json_body_ascii` (an encoded field contains no raw quote / control character, so no text can break out of its field). The model of the export document (`marshalExport`: field order, omitempty, values sorted by value, null for a nil slice) is compared byte for byte with the real document on every generated completion; the oracle requires ActionImport of the real document to yield the same candidates (value, display, description, style, tag, uid) and meta, and any input that is not valid JSON to yield exactly one message and no candidate, never a panic."),
-            "level_note": ALG_NOTE + " encoding/json: encoder modelled, decoder trusted."},
+            "level_text": ("`C13_document_roundtrip` (C13Doc.lean): for every version string, every Meta (messages, no-space characters, usage) and every list of candidates or none, the model decoder `parseExport` applied to the text `marshalExport` writes yields exactly that document, the candidates in wire order (sorted by value) - by `parseString_encode` (a string literal is read back exactly and the reader stops right behind its closing quote, whatever follows), `parseArray_encode` (induction over the elements), `parseRawValue_encode` (all six fields, the four omitempty ones present or absent), with the regenerated json tags / field order / omitempty marks and the call lists of MarshalJSON and ActionImport pinned by `rawValue_tags`, `meta_tags`, `export_tags`, `export_wire_tags`, `marshal_calls`, `import_calls`. The decoder model is run on the real bytes of every generated document and must hold what the real ActionImport holds. `C13_string_roundtrip`: for every Unicode string s, decoding the JSON string that the model of Go's `appendString` writes for s yields s again (transducer induction; the per-character obligation is decided over all of ASCII and U+2028/2029 and lifted to every other character), plus `json_body_ascii` (an encoded field contains no raw quote / control character, so no text can break out of its field). The model of the export document (`marshalExport`: field order, omitempty, values sorted by value, null for a nil slice) is compared byte for byte with the real document on every generated completion; the oracle requires ActionImport of the real document to yield the same candidates (value, display, description, style, tag, uid) and meta, and any input that is not valid JSON to yield exactly one message and no candidate, never a panic."),
+            "level_note": ALG_NOTE + " encoding/json: encoder modelled; decoder modelled on the encoder's image only, otherwise trusted."},
 })
 
 
